@@ -382,9 +382,38 @@ def hook_symnco(model, mon):
     model.shared_step = wrapped
 
 
+_ENT_TAP = {}
+
+
+def _install_entropy_tap():
+    """record the per-step distributions the policy hands to its entropy helper (the reference computes its own entropy, with
+    its own gradient path, from them)"""
+    import rl4co.models.common.constructive.base as cb
+
+    if getattr(cb.calculate_entropy, "_verif_tap", False):
+        return
+    orig = cb.calculate_entropy
+
+    def calc(logprobs):
+        _ENT_TAP["logprobs"] = logprobs
+        return orig(logprobs)
+
+    calc._verif_tap = True
+    cb.calculate_entropy = calc
+
+
+def own_entropy(logprobs):
+    """- sum_a p log p per step (0 log 0 = 0), summed over the steps of a rollout: [R, T, A] -> [R]"""
+    lp = logprobs
+    safe = torch.where(torch.isfinite(lp), lp, torch.zeros_like(lp))
+    plogp = torch.where(torch.isfinite(lp), safe.exp() * safe, torch.zeros_like(lp))
+    return -plogp.sum(-1).sum(1)
+
+
 def hook_ppo(model, mon):
     pol, critic = model.policy, model.critic
     tap = {}
+    _install_entropy_tap()
     o_p = pol.forward
 
     def pforward(td, *a, **kw):
@@ -406,7 +435,8 @@ def hook_ppo(model, mon):
     def wrapped(loss, *a, **kw):
         if not mon.stop and "actions" in tap.get("kw", {}):
             mon.step += 1
-            cfg = model.ppo_cfg
+            cfg = dict(model.ppo_cfg)
+            cfg.update({k: mon.case[k] for k in ("entropy_lambda", "vf_lambda", "clip_range") if mon.case.get(k) is not None})  # what was configured, not what the object stored
             sub, out, v = tap["td"], tap["out"], tap["v"]
             ll, ent = out["log_likelihood"], out["entropy"]
             old, R = sub["logprobs"], sub["reward"].view(-1, 1)
@@ -427,7 +457,16 @@ def hook_ppo(model, mon):
                 sur = -torch.min(ratio * adv, ratio.clamp(1 - eps, 1 + eps) * adv).mean()
                 d = v - R
                 hub = torch.where(d.abs() <= 1.0, 0.5 * d * d, d.abs() - 0.5).mean()
-                ref = sur + cfg["vf_lambda"] * hub - cfg["entropy_lambda"] * ent.mean()
+                lp_steps = _ENT_TAP.get("logprobs")
+                if lp_steps is not None and lp_steps.dim() == 3 and lp_steps.shape[0] == nb:
+                    ent_ref = own_entropy(lp_steps)  # own entropy of the tapped step distributions, own gradient path
+                    mon.ctx.count("c16_ppo_own_entropy")
+                    if not torch.allclose(ent_ref.detach(), ent.detach().reshape(-1), atol=1e-4, rtol=1e-4):
+                        mon.v("ppo_entropy_value", f"reported entropy {ent.detach().reshape(-1)[:3].tolist()} != entropy of the step distributions {ent_ref.detach()[:3].tolist()}")
+                        return orig(loss, *a, **kw)
+                else:
+                    ent_ref = ent
+                ref = sur + cfg["vf_lambda"] * hub - cfg["entropy_lambda"] * ent_ref.mean()
                 mon.compare(loss, ref, params_of(pol, critic), what="PPO loss", ll=ll)
                 mon.ctx.count("c16_ppo_minibatches")
                 mon.ctx.nontrivial_case(dict(c=mon.case, step=mon.step))
@@ -507,7 +546,10 @@ def case(ctx, case):
         pol = big()
         if case.get("sched"):
             kw.update(lr_scheduler="MultiStepLR", lr_scheduler_kwargs=dict(milestones=[1], gamma=0.5))
-        model = M.PPO(env, pol, mini_batch_size=case.get("mb", 3), ppo_epochs=2, normalize_adv=case.get("norm_adv", False), **kw)
+        pk = {k: case[k] for k in ("entropy_lambda", "vf_lambda", "clip_range") if case.get(k) is not None}
+        if pk:
+            mon.sig = dict(mon.sig, ppo_cfg="custom")
+        model = M.PPO(env, pol, mini_batch_size=case.get("mb", 3), ppo_epochs=2, normalize_adv=case.get("norm_adv", False), **pk, **kw)
         hook_ppo(model, mon)
     else:
         raise KeyError(kind)
